@@ -51,6 +51,12 @@ type vDebScenario struct {
 	// Real: the reload action is the REAL generateAndReloadConfigFile (file in a temp dir,
 	// package hook reloadConfig scripted); Fails then scripts the reloadConfig calls
 	Real bool `json:"real"`
+	// Stream > 0: before everything else one configuration is submitted, and as soon as its reload attempt
+	// was made (it fails when Fails[0] is set) Stream further events (distinct configurations, every 5th a
+	// re-apply request) follow, StreamGapUs (< IntervalUs) apart: the pending (re)try must not wait for the
+	// end of the stream
+	Stream      int `json:"stream"`
+	StreamGapUs int `json:"stream_gap_us"`
 }
 
 // state of the scripted reloadConfig hook for the real-body scenarios (run one at a time)
@@ -290,6 +296,24 @@ func vDebRunScenario(sc vDebScenario) (*vDebRun, map[string]int) {
 	calm := 4*(interval+retry) + 60*time.Millisecond // generous: a loaded machine delays timers by tens of ms
 	patience := 6 * time.Second
 
+	// phase 0: a stream of submissions while a (re)try is pending
+	if sc.Stream > 0 {
+		d.send(ch, false, 1000)
+		for w := time.Now().Add(patience); time.Now().Before(w); time.Sleep(200 * time.Microsecond) {
+			d.mu.Lock()
+			k := d.calls
+			d.mu.Unlock()
+			if k > 0 {
+				break
+			}
+		}
+		for i := 1; i <= sc.Stream; i++ {
+			time.Sleep(time.Duration(sc.StreamGapUs) * time.Microsecond)
+			d.send(ch, i%5 == 0, 1000+i)
+		}
+		d.quiet(calm, patience)
+	}
+
 	// phase 1: concurrent scripted submitters
 	var wg sync.WaitGroup
 	for _, ops := range sc.Scripts {
@@ -440,6 +464,75 @@ func vDebOracle(out *vOut, sc vDebScenario, d *vDebRun, info map[string]int) {
 			if done != -1 && lastOK != done {
 				out.Fail("deb-lost-update", fmt.Sprintf("trace item %d: quiet, applied config %d but most recently submitted %d", i, lastOK, done), replay)
 				return
+			}
+		}
+	}
+	// a reload that is owed (a changed configuration / a re-apply request was accepted, or the last attempt
+	// failed) is not pushed back by further submissions: no run of >= 40 accepted events, spread over more
+	// than 3 x (debounce + retry interval), without a single call of the reload action
+	{
+		owed, cnt, lastSub := false, 0, -1
+		var since int64
+		lim := 3 * int64(sc.IntervalUs+sc.RetryUs)
+		for i, it := range d.trace {
+			switch it.K {
+			case "TB":
+				owed, cnt, since = !it.OK, 0, it.At
+			case "TS":
+				if it.C != lastSub && !owed {
+					owed, cnt, since = true, 0, it.At
+				}
+				lastSub = it.C
+			case "TR":
+				if lastSub != -1 && !owed {
+					owed, cnt, since = true, 0, it.At
+				}
+			case "TD":
+				if owed {
+					cnt++
+					if cnt >= 40 && it.At-since > lim {
+						out.Fail("deb-starved-by-submissions", fmt.Sprintf("trace item %d: a reload has been owed for %d us (debounce interval %d us, retry interval %d us) and %d further events were accepted since, but the reload action was not called: submissions keep pushing the pending (re)try back",
+							i, it.At-since, sc.IntervalUs, sc.RetryUs, cnt), replay)
+						return
+					}
+				}
+			}
+		}
+	}
+	// ... and not before its time (C19_retry_not_starved_by_submissions / C19_debounce_not_postponed, the "not
+	// before" clauses): after a failed call the timer is set to the retry interval and nothing re-arms it; after a
+	// successful one the timer is off and is armed with the debounce interval by a later event.  Go timers are never
+	// early, so two consecutive calls are at least that far apart whatever was submitted in between.
+	{
+		prev, prevOK := int64(-1), true
+		for i, it := range d.trace {
+			if it.K != "TB" {
+				continue
+			}
+			if prev >= 0 {
+				min := int64(sc.IntervalUs)
+				if !prevOK {
+					min = int64(sc.RetryUs)
+				}
+				if it.At-prev < min {
+					out.Fail("deb-reload-early", fmt.Sprintf("trace item %d: reload action called %d us after the previous call (which %s): less than the %d us its timer was set to",
+						i, it.At-prev, map[bool]string{true: "succeeded", false: "failed"}[prevOK], min), replay)
+					return
+				}
+				out.Stat("reload_gap_checked", 1)
+			}
+			prev, prevOK = it.At, it.OK
+		}
+	}
+	if sc.Stream > 0 {
+		out.Stat("stream_scenarios", 1)
+		first := true
+		for _, it := range d.trace {
+			if it.K == "TB" {
+				if first && !it.OK {
+					out.Stat("stream_submissions_while_retry_pending", sc.Stream)
+				}
+				first = false
 			}
 		}
 	}
@@ -594,6 +687,14 @@ func TestVerifDeb(t *testing.T) {
 	// fixed first scenario: two failures, then success; identical and re-apply included
 	scs[0] = vDebScenario{IntervalUs: 4000, RetryUs: 3000, Fails: []bool{true, true}, BodyUs: []int{200},
 		Scripts: [][]vDebOp{{{0, false, 1}, {100, false, 2}, {100, false, 2}, {9000, true, 0}}}, Burst: []int{100, 101, 102}}
+	if n >= 4 { // the first reload attempt fails / succeeds, then a stream of events closer together than the debounce interval
+		scs[1] = vDebScenario{IntervalUs: 40000, RetryUs: 25000, Fails: []bool{true, true, true}, BodyUs: []int{0}, Stream: 110, StreamGapUs: 5000,
+			Scripts: [][]vDebOp{{{0, false, 1}}}, Burst: []int{100, 101}}
+		scs[2] = vDebScenario{IntervalUs: 30000, RetryUs: 50000, Fails: []bool{true, true}, BodyUs: []int{300}, Stream: 110, StreamGapUs: 4000,
+			Scripts: [][]vDebOp{{{0, false, 1}}}, Burst: []int{100, 101}}
+		scs[3] = vDebScenario{IntervalUs: 40000, RetryUs: 25000, BodyUs: []int{0}, Stream: 110, StreamGapUs: 5000,
+			Scripts: [][]vDebOp{{{0, false, 1}}}, Burst: []int{100, 101}}
+	}
 	type res struct {
 		d    *vDebRun
 		info map[string]int
@@ -630,6 +731,10 @@ func TestVerifDeb(t *testing.T) {
 		sc.Real = true
 		if k == 0 { // the reload signal fails once after the file was written
 			sc = vDebScenario{IntervalUs: 4000, RetryUs: 3000, Fails: []bool{true}, BodyUs: []int{0}, Real: true,
+				Scripts: [][]vDebOp{{{0, false, 7}}}, Burst: []int{100, 101}}
+		}
+		if k == 1 { // the reload signal fails once, events keep arriving
+			sc = vDebScenario{IntervalUs: 40000, RetryUs: 25000, Fails: []bool{true, true, true}, BodyUs: []int{0}, Real: true, Stream: 110, StreamGapUs: 5000,
 				Scripts: [][]vDebOp{{{0, false, 7}}}, Burst: []int{100, 101}}
 		}
 		path := filepath.Join(dir, fmt.Sprintf("frr-%d.conf", k))
